@@ -1184,6 +1184,10 @@ class Interp:
         self.path.info['count:' + label.split('.')[-1]] = n_done
         if getattr(spec, 'inv_n', None) is not None:
             self.assume(spec.inv_n(self, env, n_done))
+        seq_len = getattr(getattr(src, 'seq', None), 'length', None)
+        if seq_len is not None:
+            # a sequence of known (symbolic) length, e.g. range(n): n_done < n inside, n_done == n at exhaustion
+            self.assume(n_done < seq_len if mode == 'iter' else n_done == seq_len)
         if mode == 'iter':
             elem = src.fresh_elem(self)
             if isinstance(src, self.lib.EnumSource):
